@@ -66,6 +66,20 @@ EXC = {"Exception": Exception, "BaseException": BaseException, "StopIteration": 
        "CustomStop": type("CustomStop", (StopAsyncIteration,), {})}
 
 
+class ValueEqError(Exception):
+    """an exception with VALUE equality (like a dataclass exception): a new instance with the same arguments is
+    equal to, but not the same object as, the one the block raised"""
+
+    def __eq__(self, other):
+        return type(other) is type(self) and other.args == self.args
+
+    def __hash__(self):
+        return hash(self.args)
+
+
+EXC["ValueEq"] = ValueEqError
+
+
 class New(Exception):
     pass
 
@@ -119,6 +133,9 @@ def make_program(case, ctx, log):
                     raise New("handler") from None
                 elif handler == "raise-same-type":
                     raise type(exc)("same type")
+                elif handler == "raise-equal":
+                    # a NEW exception object that compares equal to the one thrown in (where the type allows)
+                    raise type(exc)(*exc.args)
                 elif handler == "return":
                     return
                 elif handler == "yield-again":
@@ -146,6 +163,8 @@ def make_program(case, ctx, log):
 def classify_exc(exc, block_exc):
     if exc is block_exc:
         return ("block-object",)
+    if block_exc is not None and type(exc) is type(block_exc) and exc.args == block_exc.args:
+        return ("equal-copy-of-block-object", type(exc).__name__)
     if isinstance(exc, New):
         return ("planned", str(exc))
     msg = str(exc)
@@ -292,10 +311,10 @@ def nontrivial(case):
 @st.composite
 def variations(draw):
     return {"first": draw(st.sampled_from(FIRST + ["yield", "yield"])),
-            "handler": draw(st.sampled_from(HANDLERS + ["raise-cause"])),
+            "handler": draw(st.sampled_from(HANDLERS + ["raise-cause", "raise-equal", "raise-equal"])),
             "after": draw(st.sampled_from(AFTER)),
             "block": draw(st.sampled_from(BLOCK + ["KeyError", "LookupError", "ValueError", "CustomBase",
-                                                   "CustomRuntime", "CustomStop"])),
+                                                   "CustomRuntime", "CustomStop", "ValueEq", "ValueEq"])),
             "susp": draw(st.integers(0, 2)), "value": draw(st.sampled_from(["VALUE", None, 0, ""])),
             "use": draw(st.sampled_from(["with", "with", "decorator"])),
             "call": draw(st.sampled_from(sorted(CALLS))), "body_call": draw(st.sampled_from(sorted(CALLS))),
